@@ -398,8 +398,8 @@ GROUPS = [
     Group('store', 'h_store', enforce='TTEntry_store', min_props=3),
     Group('load', 'h_load', enforce='TTEntry_load', min_props=3),
     Group('probe', 'h_probe', enforce='TranspositionTable_probe', replace=('TTEntry_load', 'TTEntry_store', 'TranspositionTable_getIndex'), min_props=10),
-    Group('setBusy', 'h_setBusy', enforce='TranspositionTable_setBusy', replace=('TranspositionTable_insert', 'TTEntry_getScore'), min_props=5, timeout=900),
-    Group('insert', 'h_insert', enforce='TranspositionTable_insert', replace=('TTEntry_load', 'TTEntry_store', 'TTEntry_setScore', 'TTEntry_getScore', 'TranspositionTable_getIndex'), min_props=10, timeout=900),
+    Group('setBusy', 'h_setBusy', enforce='TranspositionTable_setBusy', replace=('TranspositionTable_insert', 'TTEntry_getScore'), min_props=5, timeout=3600),
+    Group('insert', 'h_insert', enforce='TranspositionTable_insert', replace=('TTEntry_load', 'TTEntry_store', 'TTEntry_setScore', 'TTEntry_getScore', 'TranspositionTable_getIndex'), min_props=10, timeout=3600),
     Group('setScore', 'h_setScore', enforce='TTEntry_setScore', min_props=5),
     Group('getScore', 'h_getScore', enforce='TTEntry_getScore', min_props=3),
     Group('isCutOff', 'h_isCutOff', enforce='TTEntry_isCutOff', replace=('TTEntry_getScore',), min_props=7),
